@@ -21,7 +21,7 @@ func C13(c *core.Ctx) {
 		"YAML decode -> FixMapKeys -> json.Marshal -> json.Unmarshal in dominance order on one map. " +
 		"Structural type comparison (cmputil.Opts) ignores the raw $ref text. " +
 		"B-PARSER: the name whose extension selects the YAML or JSON parser in the file loader is the first result of QualifiedFileName (directly or through parameters at all call sites), i.e. the resolved file that is opened. " +
-		"Decided: these routing/precedence conditions. B-TYPEFORM: in TypeList.UnmarshalJSON the list form stores the decoded list itself and the string form the one-element list of the decoded string (nil only for the empty string); in Type.UnmarshalJSON `true` stores the zero Type, which is what `{}` decodes to. " +
+		"Decided: these routing/precedence conditions. A-TYPEFORM: TypeList.UnmarshalJSON is interpreted abstractly on `\"X\"` and on `[\"X\"]` (symbolic X) and must leave equal lists; Type.UnmarshalJSON on `true` and on `{}` must leave equal types — on a stated model of encoding/json for five tiny document shapes, insensitive to how the decoders are written. A-REFNAMES: extractRefNames interpreted on both pointer prefixes in six capitalisations, with and without a file part. " +
 		"Not decided: byte equality of outputs, YAML scalar typing."
 	c.Trust("encoding/json decodes by struct tag", "goccy/go-yaml yields generic maps")
 	a := engb.New(c.Prog)
@@ -49,8 +49,8 @@ func C13(c *core.Ctx) {
 	}
 	// B-PARSER: "YAML chosen by file extension" — of the file that is opened, i.e. after extension resolution and symlinks
 	emit(c, a.ParserChoice())
-	// B-TYPEFORM: "type" as string or one-element list; true and {} as the anything-schema
-	emit(c, a.TypeForms())
+	// A-TYPEFORM: "type" as string or one-element list; true and {} as the anything-schema (semantic, on a model of encoding/json)
+	ruleTypeForm(c)
 	// A-REFNAMES: both pointer prefixes, case-insensitively, name the same definition
 	ruleRefNames(c)
 	n, probs, notes := a.SchemaProducers()
